@@ -8,6 +8,7 @@ Case kinds
            record the edited DataArray and what from_xarray makes of it              (Coq: CImport)
   raw    : a DataArray built directly with xarray (no export involved)              (Coq: CImport)
 """
+import json
 import math
 from fractions import Fraction as F
 
@@ -21,7 +22,7 @@ df = import_df()
 
 SCALES = [1e-12, 1e-9, 1e-6, 1e-3, 1.0, 1e3, 1e6]
 DIM_POOL = ["x", "y", "z", "a", "b", "t", "r0", "long_name", "X", "q_1", "u", "w", "V", "n", "r", "v", "T", "cell",
-            "pmin", "nvdim"]
+            "pmin", "nvdim", "units"]
 UNIT_POOL = ["m", "nm", "s", "T", "um", "arb. u.", "", "A/m", "rad"]
 LABEL_POOLS = [["x", "y", "z", "w4"], ["a", "b", "c", "d"], ["mx", "my", "mz", "mt"], ["v0", "v1", "v2", "v3"],
                ["re", "im", "p3", "p4"], ["z", "y", "x", "t"], ["c0", "C0", "c_0", "c00"], ["p", "pq", "pqr", "pqrs"],
@@ -32,7 +33,6 @@ DTYPES = ["float64", "float64", "float64", "float32", "int64", "int32", "complex
 NP_RTOL, NP_ATOL = F(1, 10 ** 5), F(0)
 TAG_SLABEL = "C17-scalar-label-lost"
 TAG_VDIMSDIM = "C17-dim-named-vdims"
-TAG_UNITSDIM = "C17-dim-named-units"
 
 
 def S(x):
@@ -332,19 +332,24 @@ def generate(rng, tier):
     # two fields of equal shape through the same calls, one after the other
     for k in range(nf // 2):
         fa = gen_field(rng, k % 2 == 0, tier)
-        fb = gen_field(rng, k % 2 == 0, tier, nd=len(fa["n"]), nvdim=fa["nvdim"])
-        fb["n"] = list(fa["n"])
-        if not fb.get("corner_type"):
-            lo_, hi_, cell_ = geom(fb)
-            # keep fb's own corners; only the cell counts are shared
-        fb["dtype"] = fa["dtype"]
+        fb = json.loads(json.dumps(fa))
+        shift = [rng.randint(-40, 40) for _ in fa["n"]]
+        lo_, hi_, cell_ = geom(fa)
+        mul = rng.choice([2, 4, 3]) if fa.get("corner_type") else rng.choice([2, F(1, 2), F(3, 2), 4])
+        if not fa["exact"]:
+            mul = F(float(mul))
+        fb["p1"] = [S(F(x) * mul + sh * (1 if fa.get("corner_type") else cc)) for x, sh, cc in zip(fa["p1"], shift, cell_)]
+        fb["p2"] = [S(F(x) * mul + sh * (1 if fa.get("corner_type") else cc)) for x, sh, cc in zip(fa["p2"], shift, cell_)]
+        if not fa["exact"]:
+            fb["p1"] = [S(F(float(F(x)))) for x in fb["p1"]]
+            fb["p2"] = [S(F(float(F(x)))) for x in fb["p2"]]
         fb["data"] = gen_values(rng, fb["dtype"], math.prod(fb["n"]) * fb["nvdim"], fb["exact"])
-        fb["exact"] = fb["exact"] and (not fb.get("corner_type"))
+        fb["units"] = list(reversed(fa["units"]))
         cases.append(dict(kind="pair", field=fa, second=fb))
     # second generation: export -> import -> export -> import
     for k in range(nf // 2):
         cases.append(dict(kind="secondgen", field=gen_field(rng, k % 2 == 0, tier)))
-    # a geometric dimension called 'units' (reported deviation; oracle only, tagged)
+    # a geometric dimension called 'units' (xa[dim].units would resolve to the coordinate itself)
     fs = gen_field(rng, True, tier, nd=2)
     fs["dims"] = ["units", "y"]
     cases.append(dict(kind="round", field=fs))
@@ -516,7 +521,7 @@ def apply_mods(xa, fs, mods):
                 v = [np.float64(x) for x in vals]
             elif how == "f32array" and all(float(np.float32(x)) == float(x) for x in vals):
                 v = np.array(vals, dtype=np.float32)
-            elif how == "intlist" and all(float(x) == int(x) for x in vals):
+            elif how == "intlist" and all(float(x) == int(x) and abs(x) < 2 ** 53 for x in vals):
                 v = [int(x) for x in vals]
             else:
                 v = np.array(vals, dtype=float)
@@ -682,7 +687,10 @@ def gen_inplace_ops(rng, fs):
             if nd < 2:
                 continue
             a, b = rng.sample(range(nd), 2)
-            ops.append(dict(op=kind, a=a, b=b, k=rng.choice([1, 3, -1, 2, 5])))
+            k = rng.choice([1, 3, -1, 2, 5])
+            if kind == "mesh.rotate90" and k % 2 and fs["n"][a] != fs["n"][b]:
+                k = 2          # turning only the mesh under a field keeps array.shape == n only for even k or equal counts
+            ops.append(dict(op=kind, a=a, b=b, k=k))
         elif kind == "array.write":
             ops.append(dict(op=kind, idx=[rng.randint(0, 8) for _ in range(nd)]))
         else:
@@ -691,18 +699,6 @@ def gen_inplace_ops(rng, fs):
 
 
 def run_case(c):
-    rec = _run_case(c)
-    fs = c.get("field") if isinstance(c, dict) else None
-    if fs and "units" in fs.get("dims", []):
-        # xa[dim].units resolves to the coordinate itself for a dimension called 'units' (reported deviation)
-        rec["tags"] = [TAG_UNITSDIM]
-        rec["coq"] = None
-        if rec["oracle"]:
-            rec["oracle"] = ["dim-named-units-rejected"]
-    return rec
-
-
-def _run_case(c):
     kind = c["kind"]
     rec = dict(kind=kind, case=c, oracle=[], tags=[])
     if kind == "raw":
@@ -847,6 +843,11 @@ def run_state(c, rec):
         f = build_field(fs)
         use_field(f)
         done = apply_inplace(f, c["ops"])
+        if tuple(f.array.shape[:-1]) != tuple(int(k) for k in f.mesh.n):
+            # an in-place call failed midway and left array.shape != mesh.n (not this property's business)
+            rec.update(obs=dict(skipped="inconsistent state after a failed in-place call", done=done), coq=None,
+                       key="inplace/skipped", size=nd, nontrivial=False)
+            return rec
         st = observe_field(f)
         # dyadic translations / scalings keep the exact regime; quarter turns use floating cos / sin
         exact = fs["exact"] and not any("rotate90" in d for d in done)
